@@ -71,6 +71,14 @@ pub fn ods_shares(k: usize, seed: u64, tag: u64, layout: Layout, sv1: bool) -> V
 }
 
 impl Sq {
+    /// A given square (e.g. `ExtendedDataSquare::empty()`).
+    pub fn from_eds(eds: ExtendedDataSquare) -> Sq {
+        let k = eds.square_width() as usize / 2;
+        let ods = (0..k * k).map(|t| eds.share((t / k) as u16, (t % k) as u16).unwrap().to_vec()).collect();
+        let dah = DataAvailabilityHeader::from_eds(&eds);
+        Sq { k, ods, eds, dah }
+    }
+
     pub fn build(k: usize, seed: u64, tag: u64, layout: Layout, sv1: bool) -> Sq {
         let ods = ods_shares(k, seed, tag, layout, sv1);
         // the newest app version admits every square the harness makes
